@@ -1,20 +1,23 @@
 import OW.Num
+import OW.Gen.Attr
 /-!
 # GenTieBase — the tactic and the literal identities shared by the tie theorems (`OW/Props/GenTie*.lean`)
 -/
 namespace OW.Props.GenTie
 open OW
 
-/-- case analysis on every `if`, then definitional equality (extra rewrite rules for literal identities); cases in which the
+/-- the helper functions of the regenerated file are unfolded (`gen_unfold`: whichever helpers the source has at the moment),
+then case analysis on every `if`, then definitional equality (extra rewrite rules for literal identities); cases in which the
 two sides took contradictory branches (conditions spelled differently) are closed by `simp_all` -/
 syntax "tie" (" [" Lean.Parser.Tactic.simpLemma,* "]")? : tactic
 macro_rules
   | `(tactic| tie) => `(tactic| first
       | rfl
-      | ((try dsimp only) <;> (repeat' (split <;> rename_i h <;> (try simp only [h, ↓reduceIte]))) <;>
-          (first | rfl | simp_all)))
+      | ((try simp only [gen_unfold]) <;> (try dsimp only) <;>
+          (repeat' (split <;> rename_i h <;> (try simp only [h, ↓reduceIte]))) <;> (first | rfl | simp_all)))
   | `(tactic| tie [$ls,*]) => `(tactic|
-      ((try dsimp only) <;> (repeat' (split <;> rename_i h <;> (try simp only [h, ↓reduceIte, $ls,*]))) <;>
+      ((try simp only [gen_unfold]) <;> (try dsimp only) <;>
+        (repeat' (split <;> rename_i h <;> (try simp only [h, ↓reduceIte, $ls,*]))) <;>
         (first | rfl | simp only [$ls,*] | simp_all)))
 
 /-- the float literal `0.0` is the zero a fresh array holds -/
